@@ -1,20 +1,23 @@
-import BtcwVerif.Model.AddrDeriveStep
+import BtcwVerif.Lemmas.AddrIdxRun
 /-!
 # C03 — every issued address is the seed's BIP32 child and the wallet can sign for it
 
 Theorems about the `AddrDerive` model (see `Model/AddrDerive*.lean`).  Elliptic-curve and HMAC arithmetic is the
-abstract `HD`; the only law used is `HD.Lawful` (public derivation commutes with neutering for non-hardened
-indices), always as a hypothesis.
+abstract `HD`; its two BIP32 laws are always hypotheses.
 
-What is proved here, and at which strength:
-* the index loops of `nextAddresses` / `extendAddresses` — full strength, for every validity predicate, start,
-  count and bound (`C03_indices_*`);
-* re-creation from the same seed — full strength over all histories (`C03_recreate_same`);
-* the per-object clauses (issued = child of the account key, reported path, never a wrong private key, a key is
-  returned when unlocked, imported material unchanged) are proved for every object *as built / updated by each
-  operation from any state whose cached account info is consistent* (`…_partial`): the induction that carries
-  the consistency predicate (`AcctOK`, `ObjOK`) through all 21 operations is not closed in Lean; it is covered
-  by the differential run (every object of every explored history is checked against the independent oracle).
+What is proved here (all for the official tree, `Cfg.fixed`, over ALL histories `run Cfg.fixed hd ops` — any
+interleaving of create, open/restart, new scope / account / watch-only account, nextAddresses, extendAddresses,
+lookup, DeriveFromKeyPath, MarkUsed, lock, unlock, passphrase changes, imports, ConvertToWatchingOnly, accessors):
+* the index loops of `nextAddresses` / `extendAddresses` — for every validity predicate, start, count and bound
+  (`C03_indices_next`, `C03_indices_extend`);
+* re-creation from the same seed (`C03_recreate_same`);
+* the per-object clauses for every address object of every reachable state: issued = child of the account key which
+  is the seed's `m/purpose'/coin'/account'` (`C03_issued_is_child`), reported path (`C03_reported_path`), never a
+  wrong private key (`C03_privkey`), a key is returned whenever unlocked and the account has one (`C03_can_sign`,
+  `C03_derive_on_unlock`), imported material unchanged, re-loaded = issued (`C03_loaded_is_issued`).
+  They rest on the consistency invariant `Inv` (Lemmas/AddrInv.lean), established by `Create` and preserved by
+  each operation (`step_inv`).  Hypotheses on the abstract key algebra: `HD.Lawful` (public derivation commutes
+  with neutering below the hardened range) and `HD.NoHardPub` (no public derivation of hardened children).
 -/
 set_option linter.unusedSectionVars false
 namespace AddrDerive
@@ -23,92 +26,6 @@ variable {K P : Type} [DecidableEq K] [DecidableEq P]
 
 -- ---------------------------------------------------------------------------------------------------------
 -- indices: consecutive over the valid children, nothing skipped, nothing repeated
-
-theorem firstValid_spec (valid : Nat → Bool) : ∀ (fuel start i : Nat), firstValid valid fuel start = some i →
-    start ≤ i ∧ valid i = true ∧ ∀ j, start ≤ j → j < i → valid j = false := by
-  intro fuel
-  induction fuel with
-  | zero => intro start i h; simp [firstValid] at h
-  | succ f ih =>
-    intro start i h
-    unfold firstValid at h
-    split at h
-    · rename_i hv
-      cases h
-      exact ⟨Nat.le_refl _, hv, fun j h1 h2 => absurd h1 (by omega)⟩
-    · rename_i hv
-      have := ih (start + 1) i h
-      refine ⟨by omega, this.2.1, fun j h1 h2 => ?_⟩
-      by_cases hj : j = start
-      · subst hj; simpa using hv
-      · exact this.2.2 j (by omega) h2
-
-/-- `l` is exactly the list of valid indices in `[start, stop)`, in increasing order -/
-def IsValidRun (valid : Nat → Bool) (start stop : Nat) (l : List Nat) : Prop :=
-  l.Pairwise (· < ·) ∧ (∀ i ∈ l, start ≤ i ∧ i < stop ∧ valid i = true) ∧
-    (∀ j, start ≤ j → j < stop → valid j = true → j ∈ l)
-
-theorem getLast_cons_ne (i : Nat) (t : List Nat) (d : Nat) (ht : t ≠ []) : getLast (i :: t) d = getLast t d := by
-  cases t with
-  | nil => exact absurd rfl ht
-  | cons a b => simp [getLast]
-
-theorem getLast_default (t : List Nat) (d d' : Nat) (ht : t ≠ []) : getLast t d = getLast t d' := by
-  induction t with
-  | nil => exact absurd rfl ht
-  | cons a b ih =>
-    cases b with
-    | nil => simp [getLast]
-    | cons c e =>
-      show getLast (c :: e) d = getLast (c :: e) d'
-      exact ih (by simp)
-
-theorem getLast_cons (i : Nat) (t : List Nat) (d : Nat) : getLast (i :: t) d = getLast t (i + 1) := by
-  cases t with
-  | nil => simp [getLast]
-  | cons a b => rw [getLast_cons_ne _ _ _ (by simp)]; exact getLast_default _ _ _ (by simp)
-
-theorem nextIdxs_spec (valid : Nat → Bool) : ∀ (n start : Nat) (l : List Nat), nextIdxs valid n start = some l →
-    l.length = n ∧ start ≤ getLast l start ∧ IsValidRun valid start (getLast l start) l := by
-  intro n
-  induction n with
-  | zero =>
-    intro start l h
-    simp [nextIdxs] at h
-    subst h
-    exact ⟨rfl, Nat.le_refl _, List.Pairwise.nil, by simp, fun j h1 h2 => absurd h1 (by simp [getLast] at h2; omega)⟩
-  | succ m ih =>
-    intro start l h
-    unfold nextIdxs at h
-    split at h
-    · cases h
-    · rename_i i hi
-      have hf := firstValid_spec valid _ _ _ hi
-      cases hr : nextIdxs valid m (i + 1) with
-      | none => simp [hr] at h
-      | some t =>
-        simp [hr] at h
-        subst h
-        have ht := ih (i + 1) t hr
-        have hlast : getLast (i :: t) start = getLast t (i + 1) := getLast_cons _ _ _
-        rw [hlast]
-        refine ⟨by simp [ht.1], by omega, ?_, ?_, ?_⟩
-        · refine List.Pairwise.cons ?_ ht.2.2.1
-          intro a ha
-          have := (ht.2.2.2.1 a ha).1
-          omega
-        · intro a ha
-          rcases List.mem_cons.mp ha with rfl | ha
-          · exact ⟨hf.1, by omega, hf.2.1⟩
-          · have := ht.2.2.2.1 a ha
-            exact ⟨by omega, this.2.1, this.2.2⟩
-        · intro j h1 h2 hv
-          by_cases hj : j ≤ i
-          · by_cases hji : j = i
-            · subst hji; exact List.mem_cons_self
-            · have := hf.2.2 j h1 (by omega)
-              simp [this] at hv
-          · exact List.mem_cons_of_mem _ (ht.2.2.2.2 j (by omega) h2 hv)
 
 /-- **Indices issued by `nextAddresses`.**  A call that asks for `n` addresses on a branch whose next index is
     `start` hands out exactly `n` indices: they are the valid children from `start` on, in increasing order
@@ -119,54 +36,6 @@ theorem C03_indices_next (valid : Nat → Bool) (n start : Nat) (l : List Nat) (
     l.length = n ∧ IsValidRun valid start (getLast l start) l ∧ start ≤ getLast l start :=
   let r := nextIdxs_spec valid n start l h
   ⟨r.1, r.2.2, r.2.1⟩
-
-theorem extendIdxs_spec (valid : Nat → Bool) (last : Nat) : ∀ (fuel start : Nat) (l : List Nat),
-    extendIdxs valid last fuel start = some l →
-    start ≤ getLast l start ∧ (start ≤ last → last < getLast l start) ∧ IsValidRun valid start (getLast l start) l := by
-  intro fuel
-  induction fuel with
-  | zero => intro start l h; simp [extendIdxs] at h
-  | succ f ih =>
-    intro start l h
-    unfold extendIdxs at h
-    split at h
-    · rename_i hle
-      split at h
-      · cases h
-      · rename_i i hi
-        have hf := firstValid_spec valid _ _ _ hi
-        cases hr : extendIdxs valid last f (i + 1) with
-        | none => simp [hr] at h
-        | some t =>
-          simp [hr] at h
-          subst h
-          have ht := ih (i + 1) t hr
-          have hlast : getLast (i :: t) start = getLast t (i + 1) := getLast_cons _ _ _
-          rw [hlast]
-          refine ⟨by omega, fun _ => ?_, ?_, ?_, ?_⟩
-          · by_cases h2 : i + 1 ≤ last
-            · exact ht.2.1 h2
-            · omega
-          · refine List.Pairwise.cons ?_ ht.2.2.1
-            intro a ha
-            have := (ht.2.2.2.1 a ha).1
-            omega
-          · intro a ha
-            rcases List.mem_cons.mp ha with rfl | ha
-            · exact ⟨hf.1, by omega, hf.2.1⟩
-            · have := ht.2.2.2.1 a ha
-              exact ⟨by omega, this.2.1, this.2.2⟩
-          · intro j h1 h2 hv
-            by_cases hj : j ≤ i
-            · by_cases hji : j = i
-              · subst hji; exact List.mem_cons_self
-              · have := hf.2.2 j h1 (by omega)
-                simp [this] at hv
-            · exact List.mem_cons_of_mem _ (ht.2.2.2.2 j (by omega) h2 hv)
-    · rename_i hgt
-      cases h
-      exact ⟨by simp [getLast], fun h => absurd h hgt, List.Pairwise.nil, by simp,
-        fun j h1 h2 => absurd h1 (by simp [getLast] at h2; omega)⟩
 
 /-- **Indices issued by `extendAddresses`** (recovery): every valid child from the old next index through
     `last` is derived, in order, without repetition, and the new next index is beyond `last`. -/
@@ -181,152 +50,158 @@ example : nextIdxs (fun i => i != 1 && i != 2) 3 0 = some [0, 3, 4] ∧ getLast 
 example : extendIdxs (fun i => i != 1 && i != 2) 3 5 0 = some [0, 3] := by decide
 
 -- ---------------------------------------------------------------------------------------------------------
--- objects: issued address = child of the account key, reported path, never a wrong key
+-- objects: issued address = child of the account key, reported path, never a wrong key — for every history
 
-/-- cached account info is consistent: a cached private key (and the stored one) neuters to the public key -/
-def AcctOK (hd : HD K P) (ai : AcctInfo K P) : Prop :=
-  (∀ k, ai.keyPriv = some k → hd.neuter k = ai.keyPub) ∧ (∀ k, ai.keyEnc = some k → hd.neuter k = ai.keyPub)
+/-- `Inv` (Lemmas/AddrInv.lean) holds in every reachable state: `Create` establishes it, each of the 21 operations
+    preserves it (`step_inv`; one lemma per operation in Lemmas/AddrInv{Ops,Step,Unlock,Acct,WO}.lean). -/
+theorem reach_inv (hd : HD K P) (hlaw : hd.Lawful) (hn : hd.NoHardPub) (ops : List (Op K P)) :
+    Inv hd (run Cfg.fixed hd ops).1 := (run_inv hlaw hn ops).1
 
-/-- a chained address object is what it claims to be: its public key is child `branch/index` of the account
-    public key it was derived from, the internal flag is `branch = 1`, and an attached private key is the key
-    of exactly that public key -/
-def ObjOK (hd : HD K P) (o : KeyObj K P) : Prop :=
-  (∀ k, o.privEnc = some k → pubOf hd k = o.pub) ∧
-  (o.imported = false → ∃ ap p, o.acctPub = some ap ∧ derive2pub hd ap o.branch o.index = some p ∧ o.pub = .hd p ∧
-      o.internal = (o.branch == 1))
+/-- **Every address object ever handed out is the seed's child.**  After any history, every chained (non-imported)
+    address object in the manager's heap — issued by `nextAddresses`, derived by `extendAddresses` /
+    `DeriveFromKeyPath`, looked up, or re-loaded from its row after a restart — belongs to an account row of the
+    database whose key is `m/purpose'/coin'/account'` of the seed (`RowKeyOK`, default rows) or the account key
+    given to `NewAccountWatchingOnly` (watch-only rows); its public key is child `branch/index` of that account
+    key, and (seed accounts) it is the public key of the private child `m/purpose'/coin'/account'/branch/index`.
+    (The heap only grows between restarts, so this covers every object at every moment of the history.) -/
+theorem C03_issued_is_child (hd : HD K P) (hlaw : hd.Lawful) (hn : hd.NoHardPub) (ops : List (Op K P)) (o : KeyObj K P)
+    (ho : Obj.key o ∈ (run Cfg.fixed hd ops).1.mem.heap) (hni : o.imported = false) :
+    ∃ row, acctRow (run Cfg.fixed hd ops).1 o.scope o.acct = some row ∧ o.acctPub = some (rowPub row) ∧
+      RowKeyOK hd (run Cfg.fixed hd ops).1 o.scope o.acct row ∧
+      (o.branch < H → o.index < H → ∃ p, derive2pub hd (rowPub row) o.branch o.index = some p ∧ o.pub = .hd p) ∧
+      (∀ root ak, (run Cfg.fixed hd ops).1.root = some root → acctKeyAt hd root o.scope o.acct = some ak →
+        hd.neuter ak = rowPub row → o.branch < H → o.index < H →
+        ∃ k, derive2 hd ak o.branch o.index = some k ∧ o.pub = .hd (hd.neuter k)) := by
+  have h := reach_inv hd hlaw hn ops
+  obtain ⟨row, h1, h2, _, h4, _⟩ := (h.heap o ho).chained hni
+  refine ⟨row, h1, h2, h.disk.row _ _ _ h1, h4, ?_⟩
+  intro root ak _ _ hneu hb hi
+  obtain ⟨p, hp1, hp2⟩ := h4 hb hi
+  have := derive2_neuter hd hlaw ak o.branch o.index hb hi
+  rw [hneu, hp1] at this
+  cases hk : derive2 hd ak o.branch o.index with
+  | none => simp [hk] at this
+  | some k => simp [hk] at this; exact ⟨k, rfl, by rw [hp2, this]⟩
 
-theorem derive2_neuter (hd : HD K P) (hl : hd.Lawful) (k : K) (b i : Nat) (hb : b < H) (hi : i < H) :
-    (derive2 hd k b i).map hd.neuter = derive2pub hd (hd.neuter k) b i := by
-  unfold derive2 derive2pub
-  have h1 := hl k b hb
-  cases hc : hd.child k b with
-  | none => simp [hc] at h1; simp [← h1]
-  | some bk =>
-    simp [hc] at h1
-    simp [← h1]
-    exact hl bk i hi
+/-- **The reported derivation path is the true one.**  What `DerivationInfo()` / `Internal()` report for any
+    chained object of any reachable state are the very scope, account, branch and index its public key was derived
+    with (from the key of that account's row), and `Internal()` is `branch = 1`. -/
+theorem C03_reported_path (hd : HD K P) (hlaw : hd.Lawful) (hn : hd.NoHardPub) (ops : List (Op K P)) (o : KeyObj K P)
+    (ho : Obj.key o ∈ (run Cfg.fixed hd ops).1.mem.heap) (hni : o.imported = false) :
+    (infoOfKey o).internal = ((infoOfKey o).branch == 1) ∧ (infoOfKey o).imported = false ∧
+    ∃ row, acctRow (run Cfg.fixed hd ops).1 (infoOfKey o).scope (infoOfKey o).acct = some row ∧
+      RowKeyOK hd (run Cfg.fixed hd ops).1 (infoOfKey o).scope (infoOfKey o).acct row ∧
+      ((infoOfKey o).branch < H → (infoOfKey o).index < H →
+        ∃ p, derive2pub hd (rowPub row) (infoOfKey o).branch (infoOfKey o).index = some p ∧ o.pub = .hd p) := by
+  have h := reach_inv hd hlaw hn ops
+  obtain ⟨row, h1, h2, h3, h4, _⟩ := (h.heap o ho).chained hni
+  simp only [infoOfKey, hni, Bool.false_eq_true, if_false]
+  exact ⟨h3, trivial, row, h1, h.disk.row _ _ _ h1, h4⟩
 
-/-- **Issued address = seed child, reported path true, key matches** for every object `nextAddresses`,
-    `extendAddresses`, `loadAndCacheAddress` and `DeriveFromKeyPath` build (all go through `mkChained`), from any
-    consistent cached account, whether derived from the private or from the public account key.
-    (Partial: consistency of the cached account info along arbitrary histories is not carried in Lean.) -/
-theorem C03_issued_is_child_partial (hd : HD K P) (hl : hd.Lawful) (sc : Scope) (acct : Nat) (ai : AcctInfo K P)
-    (hai : AcctOK hd ai) (usePriv : Bool) (b i : Nat) (hb : b < H) (hi : i < H) (typ : AddrType) (ac fp : Nat)
-    (o : KeyObj K P) (h : mkChained hd sc acct ai usePriv b i typ ac fp = some o) :
-    ObjOK hd o ∧ o.scope = sc ∧ o.acct = acct ∧ o.branch = b ∧ o.index = i ∧ o.typ = typ ∧ o.acctPub = some ai.keyPub := by
-  unfold mkChained at h
-  cases usePriv with
-  | true =>
-    simp only [if_true] at h
-    cases hk : ai.keyPriv with
-    | none => simp [hk] at h
-    | some ak =>
-      simp only [hk] at h
-      cases hd2 : derive2 hd ak b i with
-      | none => simp [hd2] at h
-      | some k =>
-        simp [hd2] at h
-        subst h
-        have hn := hai.1 ak hk
-        have := derive2_neuter hd hl ak b i hb hi
-        rw [hd2, hn] at this
-        refine ⟨⟨?_, fun _ => ⟨ai.keyPub, hd.neuter k, rfl, this.symm, rfl, rfl⟩⟩, rfl, rfl, rfl, rfl, rfl, rfl⟩
-        intro k' hk'
-        simp at hk'
-        subst hk'
-        rfl
-  | false =>
-    simp at h
-    rcases h with ⟨p, hp, rfl⟩
-    exact ⟨⟨by intro k hk; simp at hk, fun _ => ⟨ai.keyPub, p, rfl, hp, rfl, rfl⟩⟩, rfl, rfl, rfl, rfl, rfl, rfl⟩
-
-/-- **The reported derivation path is the true one**: what `DerivationInfo()` / `Internal()` report for a
-    well-formed non-imported object are the very scope, account, branch and index its key was derived with. -/
-theorem C03_reported_path_partial (hd : HD K P) (o : KeyObj K P) (hok : ObjOK hd o) (hni : o.imported = false) :
-    (infoOfKey o).scope = o.scope ∧ (infoOfKey o).acct = o.acct ∧ (infoOfKey o).branch = o.branch ∧
-    (infoOfKey o).index = o.index ∧ (infoOfKey o).internal = (o.branch == 1) ∧
-    ∃ ap p, o.acctPub = some ap ∧ derive2pub hd ap (infoOfKey o).branch (infoOfKey o).index = some p ∧ o.pub = .hd p := by
-  rcases hok.2 hni with ⟨ap, p, h1, h2, h3, h4⟩
-  simp [infoOfKey, hni, h4]
-  exact ⟨ap, h1, p, h2, h3⟩
-
-/-- **Never a wrong key**: whatever `PrivKey()` returns for a well-formed object is the key of its public key. -/
-theorem C03_privkey_partial (hd : HD K P) (s : State K P) (o : KeyObj K P) (hok : ObjOK hd o) (k : Priv K)
-    (h : privKeyOf s o = .ok k) : pubOf hd k = o.pub := by
-  unfold privKeyOf at h
-  split at h
-  · cases h
-  · split at h
-    · cases h
-    · split at h
-      · cases h
+/-- **Never a wrong key.**  Whatever `PrivKey()` returns for any address object of any reachable state (chained or
+    imported, key attached at creation, by derive-on-unlock, or re-loaded) is the private key of the object's
+    public key. -/
+theorem C03_privkey (hd : HD K P) (hlaw : hd.Lawful) (hn : hd.NoHardPub) (ops : List (Op K P)) (o : KeyObj K P)
+    (ho : Obj.key o ∈ (run Cfg.fixed hd ops).1.mem.heap) (k : Priv K) (hk : privKeyOf (run Cfg.fixed hd ops).1 o = .ok k) :
+    pubOf hd k = o.pub := by
+  have h := reach_inv hd hlaw hn ops
+  unfold privKeyOf at hk
+  split at hk
+  · cases hk
+  · split at hk
+    · cases hk
+    · split at hk
+      · cases hk
       · rename_i k' hk'
-        cases h
-        exact hok.1 _ hk'
+        cases hk
+        exact (h.heap o ho).priv _ hk'
 
-/-- **Derive-on-unlock installs the right key**: when `Unlock` fills in the key of an address that was created
-    while locked (`douStep`), the object stays well-formed — provided the queue entry carries the object's own
-    branch/index and the object was derived from the cached account's public key.  All other heap objects are
-    untouched. -/
-theorem C03_derive_on_unlock_partial (hd : HD K P) (hl : hd.Lawful) (acctInfo : List (Nat × AcctInfo K P))
-    (heap : List (Obj K P)) (idx b i : Nat) (o : KeyObj K P) (ai : AcctInfo K P) (hb : b < H) (hi : i < H)
-    (hget : heap[idx]? = some (.key o)) (hai : alookup acctInfo o.acct = some ai) (haok : AcctOK hd ai)
-    (hok : ObjOK hd o) (hni : o.imported = false) (hbi : o.branch = b ∧ o.index = i) (hap : o.acctPub = some ai.keyPub)
-    (heap' : List (Obj K P)) (h : douStep hd acctInfo heap (idx, b, i) = some heap') :
-    ∃ o', heap' = (if ai.keyPriv.isSome then setAt heap idx (.key o') else heap) ∧ ObjOK hd o' ∧ o'.pub = o.pub ∧
-      (ai.keyPriv.isSome → o'.privEnc.isSome) := by
-  unfold douStep at h
-  simp only [hget, hai] at h
-  cases hk : ai.keyPriv with
-  | none =>
-    simp [hk] at h
-    exact ⟨o, by simp [h], hok, rfl, by simp⟩
-  | some ak =>
-    simp only [hk] at h
-    cases hd2 : derive2 hd ak b i with
-    | none => simp [hd2] at h
-    | some k =>
-      simp [hd2] at h
-      refine ⟨{ o with privEnc := some (.hd k) }, by simp [h], ⟨?_, hok.2⟩, rfl, by simp⟩
-      intro k' hk'
-      simp at hk'
-      subst hk'
-      rcases hok.2 hni with ⟨ap, p, h1, h2, h3, _⟩
-      have hn := haok.1 ak hk
-      have := derive2_neuter hd hl ak b i hb hi
-      rw [hd2, hn] at this
-      rw [hap] at h1
-      cases h1
-      rw [hbi.1, hbi.2, ← this] at h2
-      simp at h2
-      simp [pubOf, h3, h2]
+/-- **A key is returned whenever the manager is unlocked and the account has a private key.**  In every reachable
+    unlocked, non-watching-only state, every chained address object whose account row holds a private key answers
+    `PrivKey()` — whether it was created while unlocked, created while locked and completed by derive-on-unlock,
+    extended, derived from a key path or re-loaded after a restart — and the key is the key of its public key. -/
+theorem C03_can_sign (hd : HD K P) (hlaw : hd.Lawful) (hn : hd.NoHardPub) (ops : List (Op K P))
+    (hu : (run Cfg.fixed hd ops).1.mem.locked = false) (hw : (run Cfg.fixed hd ops).1.mem.watchOnly = false)
+    (idx : Nat) (o : KeyObj K P) (ho : (run Cfg.fixed hd ops).1.mem.heap[idx]? = some (.key o)) (hni : o.imported = false)
+    (row : AcctRow K P) (hrow : acctRow (run Cfg.fixed hd ops).1 o.scope o.acct = some row) (hpriv : (rowPriv row).isSome) :
+    ∃ k, privKeyOf (run Cfg.fixed hd ops).1 o = .ok k ∧ pubOf hd k = o.pub := by
+  have h := reach_inv hd hlaw hn ops
+  have hmem : Obj.key o ∈ (run Cfg.fixed hd ops).1.mem.heap := List.mem_of_getElem? ho
+  obtain ⟨row', h1, _, _, _, h5⟩ := (h.heap o hmem).chained hni
+  rw [hrow] at h1; cases h1
+  have hpa : o.hasPrivAcct = true := by rw [h5 (by rw [← h.woEq]; exact hw)]; exact hpriv
+  rcases h.sign idx o ho hni hpa hw with h1 | ⟨h1, _⟩
+  · cases hp : o.privEnc with
+    | none => simp [hp] at h1
+    | some k => exact ⟨k, by simp [privKeyOf, hu, hw, hp], (h.heap o hmem).priv k hp⟩
+  · rw [hu] at h1; cases h1
 
-/-- **A key is returned when unlocked**: an object built while the manager is unlocked for an account that has
-    a private key (`usePriv`) carries its private key, so `PrivKey()` succeeds in every later unlocked,
-    non-watching-only state. -/
-theorem C03_can_sign_partial (hd : HD K P) (sc : Scope) (acct : Nat) (ai : AcctInfo K P) (b i : Nat) (typ : AddrType)
-    (ac fp : Nat) (o : KeyObj K P) (h : mkChained hd sc acct ai true b i typ ac fp = some o)
-    (s : State K P) (hu : s.mem.locked = false) (hw : s.mem.watchOnly = false) :
-    ∃ k, privKeyOf s o = .ok k := by
-  unfold mkChained at h
-  simp only [if_true] at h
-  cases hk : ai.keyPriv with
-  | none => simp [hk] at h
-  | some ak =>
-    simp only [hk] at h
-    cases hd2 : derive2 hd ak b i with
-    | none => simp [hd2] at h
-    | some k =>
-      simp [hd2] at h
-      subst h
-      exact ⟨.hd k, by simp [privKeyOf, hu, hw]⟩
+/-- the same through a handle: `PrivKey()` of the object bound to handle `hh` answers with its key -/
+theorem C03_can_sign_handle (hd : HD K P) (hlaw : hd.Lawful) (hn : hd.NoHardPub) (ops : List (Op K P))
+    (hu : (run Cfg.fixed hd ops).1.mem.locked = false) (hw : (run Cfg.fixed hd ops).1.mem.watchOnly = false)
+    (hh : Nat) (o : KeyObj K P) (ho : objOfHandle (run Cfg.fixed hd ops).1 hh = some (.key o)) (hni : o.imported = false)
+    (row : AcctRow K P) (hrow : acctRow (run Cfg.fixed hd ops).1 o.scope o.acct = some row) (hpriv : (rowPriv row).isSome) :
+    ∃ k, (opPrivKey (run Cfg.fixed hd ops).1 hh).2.1 = .key k ∧ pubOf hd k = o.pub := by
+  unfold objOfHandle at ho
+  cases hi : alookup (run Cfg.fixed hd ops).1.mem.handles hh with
+  | none => simp [hi] at ho
+  | some idx =>
+    simp [hi] at ho
+    obtain ⟨k, hk1, hk2⟩ := C03_can_sign hd hlaw hn ops hu hw idx o ho hni row hrow hpriv
+    refine ⟨k, ?_, hk2⟩
+    simp [opPrivKey, objOfHandle, hi, ho, hk1]
 
-/-- **Imported keys are returned unchanged**: the object `ImportPrivateKey` builds, and the one
-    `loadAndCacheAddress` rebuilds from the stored row after a restart, hold exactly the imported key. -/
-theorem C03_imported_unchanged (hd : HD K P) (s : State K P) (o : KeyObj K P) (id : Nat)
-    (hpub : o.pub = .imp id) (hpriv : o.privEnc = some (.imp id)) (hu : s.mem.locked = false) (hw : s.mem.watchOnly = false) :
-    privKeyOf s o = .ok (.imp id) ∧ pubOf hd (.imp id : Priv K) = o.pub := by
-  simp [privKeyOf, hu, hw, hpriv, pubOf, hpub]
+/-- **Derive-on-unlock.**  A successful `Unlock` in any reachable state leaves every address object in place with
+    the same public key and path, fills in private keys only where they are the key of the object's public key,
+    and afterwards every chained object whose account has a private key answers `PrivKey()` (instance of
+    `C03_can_sign` for the state after the unlock). -/
+theorem C03_derive_on_unlock (hd : HD K P) (hlaw : hd.Lawful) (hn : hd.NoHardPub) (ops : List (Op K P)) (pass : Nat)
+    (hok : (opUnlock Cfg.fixed hd (run Cfg.fixed hd ops).1 pass).2.1 = .ok)
+    (idx : Nat) (o : KeyObj K P) (ho : (run Cfg.fixed hd ops).1.mem.heap[idx]? = some (.key o)) :
+    ∃ o', (opUnlock Cfg.fixed hd (run Cfg.fixed hd ops).1 pass).1.mem.heap[idx]? = some (.key o') ∧
+      o'.pub = o.pub ∧ o'.scope = o.scope ∧ o'.acct = o.acct ∧ o'.branch = o.branch ∧ o'.index = o.index ∧
+      (∀ k, o'.privEnc = some k → pubOf hd k = o.pub) ∧
+      (o.imported = false → ∀ row, acctRow (run Cfg.fixed hd ops).1 o.scope o.acct = some row → (rowPriv row).isSome →
+        ∃ k, privKeyOf (opUnlock Cfg.fixed hd (run Cfg.fixed hd ops).1 pass).1 o' = .ok k ∧ pubOf hd k = o.pub) := by
+  obtain ⟨h, hnd⟩ := run_inv hlaw hn ops
+  have hupd := opUnlock_privUpd hlaw hn h hnd.noShadow pass
+  have h' := opUnlock_inv hlaw hn h hnd.noShadow pass
+  obtain ⟨hul, huw⟩ := opUnlock_ok_unlocked _ pass hok
+  obtain ⟨o', ho', hcase⟩ := hupd.obj' ho
+  have hmem' : Obj.key o' ∈ (opUnlock Cfg.fixed hd (run Cfg.fixed hd ops).1 pass).1.mem.heap := List.mem_of_getElem? ho'
+  have hid : o'.pub = o.pub ∧ o'.scope = o.scope ∧ o'.acct = o.acct ∧ o'.branch = o.branch ∧ o'.index = o.index ∧
+      o'.imported = o.imported ∧ o'.hasPrivAcct = o.hasPrivAcct := by
+    rcases hcase with e | ⟨k, e, _⟩ <;> rw [e] <;> exact ⟨rfl, rfl, rfl, rfl, rfl, rfl, rfl⟩
+  refine ⟨o', ho', hid.1, hid.2.1, hid.2.2.1, hid.2.2.2.1, hid.2.2.2.2.1, ?_, ?_⟩
+  · intro k hk; rw [← hid.1]; exact (h'.heap o' hmem').priv k hk
+  · intro hni row hrow hpriv
+    have hmem : Obj.key o ∈ (run Cfg.fixed hd ops).1.mem.heap := List.mem_of_getElem? ho
+    obtain ⟨row', h1, _, _, _, h5⟩ := (h.heap o hmem).chained hni
+    rw [hrow] at h1; cases h1
+    have hw0 : (run Cfg.fixed hd ops).1.disk.watchOnly = false := by
+      cases hx : (run Cfg.fixed hd ops).1.mem.watchOnly with
+      | false => rw [← h.woEq]; exact hx
+      | true => simp [opUnlock, hx] at hok
+    have hpa : o'.hasPrivAcct = true := by rw [hid.2.2.2.2.2.2, h5 hw0]; exact hpriv
+    rcases h'.sign idx o' ho' (by rw [hid.2.2.2.2.2.1]; exact hni) hpa huw with h1 | ⟨h1, _⟩
+    · cases hp : o'.privEnc with
+      | none => simp [hp] at h1
+      | some k => exact ⟨k, by simp [privKeyOf, hul, huw, hp], by rw [← hid.1]; exact (h'.heap o' hmem').priv k hp⟩
+    · rw [hul] at h1; cases h1
+
+/-- **Imported keys are returned unchanged.**  In every reachable state an imported key object stands for one
+    imported key `id`: its public key is that key's, and whatever `PrivKey()` returns is exactly the imported key. -/
+theorem C03_imported_unchanged (hd : HD K P) (hlaw : hd.Lawful) (hn : hd.NoHardPub) (ops : List (Op K P)) (o : KeyObj K P)
+    (ho : Obj.key o ∈ (run Cfg.fixed hd ops).1.mem.heap) (hi : o.imported = true) :
+    ∃ id, o.pub = .imp id ∧ ∀ k, privKeyOf (run Cfg.fixed hd ops).1 o = .ok k → k = .imp id := by
+  have h := reach_inv hd hlaw hn ops
+  obtain ⟨id, hid⟩ := (h.heap o ho).imported hi
+  refine ⟨id, hid, fun k hk => ?_⟩
+  have := C03_privkey hd hlaw hn ops o ho k hk
+  rw [hid] at this
+  cases k with
+  | hd k' => simp [pubOf] at this
+  | imp j => simp [pubOf] at this; rw [this]
 
 /-- imported scripts are returned unchanged (`Script()` yields the script the row / object stands for) -/
 theorem C03_imported_script_unchanged (cfg : Cfg) (s : State K P) (o : ScrObj) (k : Nat) (h : scriptOf cfg s o = .ok k) :
@@ -337,6 +212,95 @@ theorem C03_imported_script_unchanged (cfg : Cfg) (s : State K P) (o : ScrObj) (
   all_goals first
     | (simp at h; done)
     | (simp at h; exact h.symm)
+
+/-- **An address re-loaded from the database is the address that was issued.**  In any reachable state (e.g. right
+    after a restart, when nothing is cached), looking up an address id whose row says "account `a`, branch `b`,
+    index `i`" builds an object whose public key is the one in the id and whose path is `a/b/i`. -/
+theorem C03_loaded_is_issued (hd : HD K P) (hlaw : hd.Lawful) (hn : hd.NoHardPub) (ops : List (Op K P)) (sc : Scope)
+    (id : AddrId P) (hh a b i : Nat) (sm : ScopeMem K P) (hsm : getSM (run Cfg.fixed hd ops).1 sc = some sm)
+    (hnc : alookup sm.addrs id = none) (hrow : addrRowAt (run Cfg.fixed hd ops).1 sc id = some (.chain a b i))
+    (info : Info) (hres : (opLookup hd (run Cfg.fixed hd ops).1 sc id hh).2.1 = .addr info) :
+    ∃ o, objOfHandle (opLookup hd (run Cfg.fixed hd ops).1 sc id hh).1 hh = some (.key o) ∧ info = infoOfKey o ∧
+      (∃ cls, id = .key o.pub cls true) ∧ o.scope = sc ∧ o.acct = a ∧ o.branch = b ∧ o.index = i ∧ o.imported = false := by
+  have h := reach_inv hd hlaw hn ops
+  generalize (run Cfg.fixed hd ops).1 = s at *
+  obtain ⟨row, p, cls, hr1, hr2, hr3⟩ := h.disk.addr sc id a b i hrow
+  cases hsd : getSD s sc with
+  | none => simp [addrRowAt, hsd] at hrow
+  | some sd =>
+    have hrow' : alookup sd.addrs id = some (.chain a b i) := by simpa [addrRowAt, hsd] using hrow
+    unfold opLookup at hres ⊢
+    simp only [hsm, hsd, hnc, hrow'] at hres ⊢
+    cases hl : loadAcct hd s sc a with
+    | error e => simp [hl] at hres
+    | ok r =>
+      obtain ⟨s1, ai⟩ := r
+      obtain ⟨h1, hc, hf, sm1, sd1, hsm1, hsd1⟩ := loadAcct_spec h hl
+      simp only [hl] at hres ⊢
+      cases hm : mkChained hd sc a ai (!s1.mem.locked && !s1.mem.watchOnly && ai.keyPriv.isSome) b i
+          (accountAddrType sm.schema ai (b == 1)) ai.childIdx ai.fp with
+      | none => simp [hm] at hres
+      | some o =>
+        simp only [hm, getSM_alloc, hsm1] at hres ⊢
+        obtain ⟨hok, e1, e2, e3, e4, e5, _⟩ := mkChained_ok hlaw h1 hc hm
+        obtain ⟨row', hr', _, _, hchild, _⟩ := hok.chained e5
+        rw [e1, e2, hf.acctRow, hr1] at hr'
+        cases hr'
+        obtain ⟨hb, hi⟩ := derive2pub_nonhard hd hn _ _ _ _ hr2
+        obtain ⟨p', hp1, hp2⟩ := hchild (by rw [e3]; exact hb) (by rw [e4]; exact hi)
+        rw [e3, e4, hr2] at hp1
+        cases hp1
+        refine ⟨o, ?_, by simpa using hres.symm, ⟨cls, by rw [hp2]; exact hr3⟩, e1, e2, e3, e4, e5⟩
+        simp [objOfHandle, bindH, alookup_aset, putSM, alloc]
+
+-- ---------------------------------------------------------------------------------------------------------
+-- indices over the whole history
+
+theorem runLog_fst (hd : HD K P) (ops : List (Op K P)) : (runLog hd ops).1 = (run Cfg.fixed hd ops).1 := by
+  rw [runLog_state, run_fst_eq]
+
+/-- **Indices are consecutive over the valid children, across the whole history.**  `(runLog hd ops).2` lists, in
+    issue order, every address object `nextAddresses` / `extendAddresses` allocated since the wallet was created —
+    through locks, unlocks, restarts, passphrase changes, imports, new accounts / scopes and watching-only
+    conversion.  For every account row and branch, the indices issued are exactly the valid children below the
+    row's stored next index, in strictly increasing order: they start at 0, skip invalid children only, never
+    repeat, and the stored next index is one past the last index issued (so the next call continues there). -/
+theorem C03_indices (hd : HD K P) (hlaw : hd.Lawful) (hn : hd.NoHardPub) (ops : List (Op K P)) (sc : Scope) (a : Nat)
+    (row : AcctRow K P) (hr : acctRow (run Cfg.fixed hd ops).1 sc a = some row) (int : Bool) :
+    IsValidRun (validAt hd (rowPub row) (branchOf int)) 0 (rowNext row int) (idxOf (runLog hd ops).2 sc a (branchOf int)) := by
+  obtain ⟨_, _, x⟩ := runLog_inv hlaw hn ops
+  rw [← runLog_fst] at hr
+  exact x.run sc a row hr int
+
+/-- no index is ever issued twice on a branch (corollary of `C03_indices`) -/
+theorem C03_indices_no_repeat (hd : HD K P) (hlaw : hd.Lawful) (hn : hd.NoHardPub) (ops : List (Op K P)) (sc : Scope) (a : Nat)
+    (row : AcctRow K P) (hr : acctRow (run Cfg.fixed hd ops).1 sc a = some row) (int : Bool) :
+    (idxOf (runLog hd ops).2 sc a (branchOf int)).Nodup :=
+  (C03_indices hd hlaw hn ops sc a row hr int).1.imp (fun h => Nat.ne_of_lt h)
+
+/-- every issued object belongs to an account that exists, on branch 0 or 1 — nothing else is in the log -/
+theorem C03_issued_known (hd : HD K P) (hlaw : hd.Lawful) (hn : hd.NoHardPub) (ops : List (Op K P)) (o : KeyObj K P)
+    (ho : o ∈ (runLog hd ops).2) : (acctRow (run Cfg.fixed hd ops).1 o.scope o.acct).isSome ∧ (o.branch = 0 ∨ o.branch = 1) := by
+  obtain ⟨_, _, x⟩ := runLog_inv hlaw hn ops
+  rw [← runLog_fst]
+  exact x.known o ho
+
+/-- the cached next indices of a loaded account always equal the stored ones (so a restart continues where the
+    running manager would have) -/
+theorem C03_next_index_cached (hd : HD K P) (hlaw : hd.Lawful) (hn : hd.NoHardPub) (ops : List (Op K P)) (sc : Scope) (a : Nat)
+    (ai : AcctInfo K P) (row : AcctRow K P) (hc : cacheAt (run Cfg.fixed hd ops).1 sc a = some ai)
+    (hr : acctRow (run Cfg.fixed hd ops).1 sc a = some row) :
+    ai.nextExt = rowNext row false ∧ ai.nextInt = rowNext row true := by
+  obtain ⟨_, _, x⟩ := runLog_inv hlaw hn ops
+  rw [← runLog_fst] at hc hr
+  exact x.next sc a ai row hc hr
+
+/-- what `nextAddresses` reports to its caller are exactly the objects it appended to the issue log, in order -/
+theorem C03_next_reports_issued (hd : HD K P) (hlaw : hd.Lawful) (hn : hd.NoHardPub) (ops : List (Op K P)) (sc : Scope)
+    (acct n : Nat) (int : Bool) (hb : Nat) (infos : List Info)
+    (hres : (opNext hd (run Cfg.fixed hd ops).1 sc acct n int hb).2.1 = .addrs infos) :
+    infos = (newObjs (run Cfg.fixed hd ops).1 (opNext hd (run Cfg.fixed hd ops).1 sc acct n int hb).1).map infoOfKey :=
+  opNext_reports (reach_inv hd hlaw hn ops) sc acct n int hb infos hres
 
 -- ---------------------------------------------------------------------------------------------------------
 -- re-creation from the same seed
@@ -352,9 +316,9 @@ theorem foldl_state_indep (cfg : Cfg) (hd : HD K P) (ops : List (Op K P)) :
 /-- **A wallet re-created from the same seed behaves identically**: whatever happened before, after
     `Create(root)` the state — hence every address subsequently issued, looked up or derived, and every key
     returned — is a function of the seed's root key and the operations that follow alone. -/
-theorem C03_recreate_same (cfg : Cfg) (hd : HD K P) (root : K) (pre ops : List (Op K P)) :
-    (run cfg hd (pre ++ .create root :: ops)).1 = (run cfg hd (.create root :: ops)).1 := by
-  have hstep : ∀ s s' : State K P, step cfg hd s (.create root) = step cfg hd s' (.create root) := by
+theorem C03_recreate_same (hd : HD K P) (root : K) (pre ops : List (Op K P)) :
+    (run Cfg.fixed hd (pre ++ .create root :: ops)).1 = (run Cfg.fixed hd (.create root :: ops)).1 := by
+  have hstep : ∀ s s' : State K P, step Cfg.fixed hd s (.create root) = step Cfg.fixed hd s' (.create root) := by
     intro s s'; simp [step]
   unfold run
   cases pre with
@@ -362,15 +326,17 @@ theorem C03_recreate_same (cfg : Cfg) (hd : HD K P) (root : K) (pre ops : List (
   | cons p ps =>
     simp only [List.cons_append, List.foldl_cons, List.foldl_append]
     rw [hstep _ emptyState]
-    exact foldl_state_indep cfg hd ops _ _ _
+    exact foldl_state_indep Cfg.fixed hd ops _ _ _
 
 -- ---------------------------------------------------------------------------------------------------------
 -- the F3 defect (fixed in the official tree by fd5efc1) and non-vacuity
 
 def demoHD03 : HD (List Nat) (List Nat) :=
-  { child := fun k i => some (k ++ [i]), neuter := id, pubChild := fun p i => some (p ++ [i]) }
+  { child := fun k i => some (k ++ [i]), neuter := id, pubChild := fun p i => if i < H then some (p ++ [i]) else none }
 
-theorem demoHD03_lawful : demoHD03.Lawful := by intro k i _; rfl
+/-- the hypotheses of the theorems above are satisfiable: the demo key algebra is lawful -/
+theorem demoHD03_lawful : demoHD03.Lawful := by intro k i h; simp [demoHD03, h]
+theorem demoHD03_noHardPub : demoHD03.NoHardPub := by intro p i h; simp [demoHD03, Nat.not_lt.mpr h]
 
 /-- extend while unlocked, look the address up, ask for its key -/
 def demoExtend : List (Op (List Nat) (List Nat)) :=
@@ -396,5 +362,10 @@ example : (match (step {} demoHD03 (run {} demoHD03
       [.create [0], .next (49, 0) 0 1 true 1, .restart, .unlock 0,
        .lookup (49, 0) (.key (.hd [0, 49 + H, 0 + H, 0 + H, 1, 0]) 0 true) 9]).1 (.privKey 9)).2.1 with
       | .key (.hd k) => k == [0, 49 + H, 0 + H, 0 + H, 1, 0] | _ => false) = true := by decide
+
+/-- non-vacuity of `C03_indices`: a history with a lock, a restart and an extension in between; the external branch
+    of account 0 of scope 84:0 has issued 0,1,2,3,4 and the stored next index is 5 -/
+example : idxOf (runLog demoHD03 [.create [0], .next (84, 0) 0 2 false 1, .unlock 0, .extend (84, 0) 0 2 false, .restart,
+      .next (84, 0) 0 2 false 5, .next (84, 0) 0 1 true 9]).2 (84, 0) 0 0 = [0, 1, 2, 3, 4] := by decide
 
 end AddrDerive
